@@ -27,6 +27,9 @@
 #ifdef USE_STARPU
 #include "algorithms/smstarpu/tbfsmstarpualgorithmtsm.hpp"   // <starpu.h> resolves to harness/mock_starpu/starpu.h
 #endif
+#ifdef USE_SPECX
+#include "algorithms/smspecx/tbfsmspecxalgorithmtsm.hpp"     // <Legacy/SpRuntime.hpp> resolves to harness/mock_specx/
+#endif
 
 #if PERIODIC
 #include "algorithms/periodic/tbfalgorithmperiodictoptreetsm.hpp"
@@ -185,6 +188,16 @@ int main(){
             algo->execute(*cs.tree, int(kv(ts, "flags", 63)));
             flushLog();
         }
+#ifdef USE_SPECX
+        else if(op == "exec" && ts.size() > 1 && ts[1] == "specxtsm"){
+            mock_specx_configure(int(kv(ts, "sched", 0)), (unsigned long)kv(ts, "seed", 1), int(kv(ts, "workers", 1)));
+            {
+                std::unique_ptr<TbfSmSpecxAlgorithmTsm<RealType, Kernel, SpaceIndex>> algo(new TbfSmSpecxAlgorithmTsm<RealType, Kernel, SpaceIndex>(*cs.config, kv(ts, "upper", 2)));
+                algo->execute(*cs.tree, int(kv(ts, "flags", 63)));
+            }
+            flushLog();
+        }
+#endif
 #ifdef USE_STARPU
         else if(op == "exec" && ts.size() > 1 && ts[1] == "starputsm"){
             mock_starpu_configure(int(kv(ts, "sched", 0)), (unsigned long)kv(ts, "seed", 1), int(kv(ts, "workers", 1)));
